@@ -65,7 +65,7 @@ def handle (line : String) : String :=
   let nIssue := (es.filter (fun e => match e with | .issue .. => true | _ => false)).length
   let nOk := (es.filter (fun e => match e with | .ok .. => true | _ => false)).length
   let nErr := (es.filter (fun e => match e with | .err .. => true | _ => false)).length
-  let nt := boolStr (decide (nIssue ≥ 2) && decide (nErr > 0 || nOk ≥ 3))
+  let nt := boolStr (decide (nIssue ≥ 2) && decide (nErr > 0 || nOk ≥ 2))
   let hugeHeader := (toks impl).any (fun t => (t.splitOn ":").getD 3 "" == "hugetags")
   match rs with
   | [] => if hugeHeader && !superLinear es then s!"* | 0:C22.frame-model-misses-tag-loop | {nt}" else s!"* | 1 | {nt}"
